@@ -69,7 +69,12 @@ func SignAndSubmit(
 
 	sessionID := hex.EncodeToString(previousEntryBytes)
 
-	go broadcastShare(ctx, logger, signer.MemberID(), selfShare, channel, sessionID)
+	// The share is marshalled before the broadcast goroutine is started.
+	// Marshalling normalizes the point in place so it must not run
+	// concurrently with the signature recovery that reads the same point.
+	selfShareBytes := selfShare.Marshal()
+
+	go broadcastShare(ctx, logger, signer.MemberID(), selfShareBytes, channel, sessionID)
 
 	receiveChannel := make(chan net.Message, 64)
 	channel.Recv(ctx, func(netMessage net.Message) {
@@ -164,13 +169,13 @@ func broadcastShare(
 	ctx context.Context,
 	logger log.StandardLogger,
 	memberID group.MemberIndex,
-	share *bn256.G1,
+	shareBytes []byte,
 	channel net.BroadcastChannel,
 	sessionID string,
 ) {
 	message := &SignatureShareMessage{
 		memberID,
-		share.Marshal(),
+		shareBytes,
 		sessionID,
 	}
 
